@@ -152,6 +152,9 @@ func (c *c16Run) openSession(u *c16User, sid uint32, conns int) bool {
 }
 
 func (c *c16Run) traffic(u *c16User, s *c16Sess, n int, rng *mrand.Rand) {
+	if s == nil || s.cs == nil {
+		return // the session was found closed (and dropped from the books) by the settling step in between
+	}
 	st, err := s.cs.OpenStream()
 	if err != nil {
 		return
